@@ -101,7 +101,7 @@ def asynchronous[**Args, Result](
             executor=cast(Executor | None, None if executor is MISSING else executor),
         )
 
-    if function := function:
+    if function is not None:
         return wrap(wrapped=function)
 
     else:
